@@ -10,9 +10,9 @@
   (Lemmas/Convert.lean, Lemmas/ConvFloat.lean): a widened bound, a dropped `if (dest)`, a store of the wrong
   width or an unguarded `isgraph` in the C source changes the table and makes `by decide` fail.
 
-  Not proved here (differential only, see the level note): floating targets beyond exactly representable
-  integers (rounding, finite -> infinity), text -> floating point.  `float_no_saturation_statement` records the
-  clause.
+  Floating targets: `float_no_saturation` proves that an accepted conversion stores the correctly rounded value of
+  Spec/Float.lean and never turns a finite number into an infinity; that the hardware conversion instructions and
+  `strtof/strtod/strtold` round this way is an assumption, checked differentially against the real code.
 -/
 import MptModel.Lemmas.Convert
 import MptModel.Lemmas.ConvText
@@ -21,13 +21,13 @@ namespace Mpt.C07
 open Mpt Mpt.Conv Mpt.Scalar Mpt.Flt
 
 /-- Integer -> integer (all 9 x 9 pairs of c b y n q i u x t, every value of the source type, with and without
-    destination): the conversion never has undefined behaviour; if it is accepted without destination nothing is
-    stored; if it is accepted with destination the target object denotes exactly the source number — and a
-    character target only ever receives a printable 7-bit character. -/
+    destination): the conversion never has undefined behaviour; an accepted conversion returns the size of the
+    target type; without destination nothing is stored; with destination the target object denotes exactly the
+    source number — and a character target only ever receives a printable 7-bit character. -/
 theorem int_exact (src tgt : Ty) (hs : src ∈ Ty.ints) (ht : tgt ∈ Ty.ints) (v : Int) (hv : inRange src v) (d : Bool) :
     verdict (conv src tgt (.int v) d) ≠ .broken ∧
     ∀ o n, conv src tgt (.int v) d = .ok (o, n) →
-      (d = false → o = none) ∧
+      n = tgt.size ∧ (d = false → o = none) ∧
       (d = true → ∃ bits, o = some (.int bits) ∧ denote tgt bits = v ∧ (tgt = .c → isGraph v = true)) := by
   have htab : checkIntTable = true := by decide
   unfold checkIntTable at htab
@@ -37,14 +37,14 @@ theorem int_exact (src tgt : Ty) (hs : src ∈ Ty.ints) (ht : tgt ∈ Ty.ints) (
   have hp := h1 tgt ht
   have hsf : src.isFloat = false := by
     cases src <;> simp [Ty.ints] at hs <;> rfl
-  rcases checkPair_sound src tgt v d hp hsf hv with ⟨e, he⟩ | ⟨o, n, ho, h2, h3⟩
+  rcases checkPair_sound src tgt v d hp hsf hv with ⟨e, he⟩ | ⟨o, ho, h2, h3⟩
   · exact ⟨by simp [he, verdict], by intro o n h; simp [he] at h⟩
   · refine ⟨by simp [ho, verdict], ?_⟩
     intro o' n' h
     rw [ho] at h
     simp only [Res.ok.injEq, Prod.mk.injEq] at h
     obtain ⟨rfl, rfl⟩ := h
-    exact ⟨h2, h3⟩
+    exact ⟨rfl, h2, h3⟩
 
 /-- instances: uint32 65535 -> 'q' is stored exactly, 65536 is refused, int32 -8194 -> 'c' is refused -/
 example : conv .u .q (.int 65535) true = .ok (some (.int 65535), 2) := by decide
@@ -60,6 +60,62 @@ theorem query_same_verdict (src tgt : Ty) (s : Src) :
 
 example : verdict (conv .q .e (.int 7) false) = .accepted := by decide
 
+/-- representable source values: an integer of the source type, or a floating datum whose magnitude does not
+    exceed the largest finite value of the source type -/
+def srcOK (src : Ty) : Src → Prop
+  | .int v => src.isFloat = false ∧ inRange src v
+  | .flt x => src.isFloat = true ∧ x.absLe (tgtCTy src).fmt.maxInt
+
+def srcVal : Src → FVal
+  | .int v => ofInt v
+  | .flt x => x
+
+/-- Floating targets (all 12 sources x f d e, every representable source value): no undefined behaviour; an accepted
+    conversion returns the target's size and stores the correctly rounded (nearest, ties to even) value of the
+    source number (DESIGN §5.0) — and that value is finite whenever the source is: a finite number is never turned
+    into an infinity or a NaN, it is refused instead. -/
+theorem float_no_saturation (src tgt : Ty) (ht : tgt ∈ Ty.floats) (s : Src) (hs : srcOK src s) :
+    verdict (conv src tgt s true) ≠ .broken ∧
+    ∀ o n, conv src tgt s true = .ok (o, n) →
+      n = tgt.size ∧ ∃ y, o = some (.flt y) ∧ y = round (tgtCTy tgt).fmt (srcVal s) ∧
+        ((srcVal s).isFinite = true → y.isFinite = true) := by
+  cases s with
+  | int v =>
+    obtain ⟨hsf, hv⟩ := hs
+    have hsm : src ∈ Ty.ints := by cases src <;> simp [Ty.isFloat] at hsf <;> simp [Ty.ints]
+    have htab : checkFloatTable = true := by decide
+    unfold checkFloatTable at htab
+    rw [List.all_eq_true] at htab
+    have h1 := htab src hsm
+    rw [List.all_eq_true] at h1
+    rcases checkPairF_sound_any src tgt v (h1 tgt ht) hsf hv with ⟨e, he⟩ | ⟨y, hy, hyr, hfin⟩
+    · exact ⟨by simp [he, verdict], by intro o n h; simp [he] at h⟩
+    · refine ⟨by simp [hy, verdict], ?_⟩
+      intro o n h
+      rw [hy] at h
+      simp only [Res.ok.injEq, Prod.mk.injEq] at h
+      exact ⟨h.2.symm, y, h.1.symm, hyr, fun _ => hfin⟩
+  | flt x =>
+    obtain ⟨hsf, hx⟩ := hs
+    have hsm : src ∈ Ty.floats := by cases src <;> simp [Ty.isFloat] at hsf <;> simp [Ty.floats]
+    have htab : checkFloatSrcTable = true := by decide +kernel
+    unfold checkFloatSrcTable at htab
+    rw [List.all_eq_true] at htab
+    have h1 := htab src hsm
+    rw [List.all_eq_true] at h1
+    rcases checkPairFF_sound src tgt x (h1 tgt ht) hx with ⟨e, he⟩ | ⟨y, hy, hyr, hfin⟩
+    · exact ⟨by simp [he, verdict], by intro o n h; simp [he] at h⟩
+    · refine ⟨by simp [hy, verdict], ?_⟩
+      intro o n h
+      rw [hy] at h
+      simp only [Res.ok.injEq, Prod.mk.injEq] at h
+      exact ⟨h.2.symm, y, h.1.symm, hyr, hfin⟩
+
+/-- FLT_MAX converts from double, the next double above it is refused (not stored as infinity); 2^24+1 rounds to 2^24 -/
+example : conv .d .f (.flt (.fin false 16777215 104)) true = .ok (some (.flt (.fin false 16777215 104)), 4) := by decide +kernel
+example : conv .d .f (.flt (.fin false (16777215 * 2 ^ 29 + 1) 75)) true = .err .BadValue := by decide +kernel
+example : conv .i .f (.int 16777217) true = .ok (some (.flt (.fin false 8388608 1)), 4) := by decide +kernel
+
 /-- Integer -> floating point: a source value with fewer significant bits than the target's significand
     (24 / 53 / 64) is either refused or stored as exactly that number. -/
 theorem int_to_float_exact (src tgt : Ty) (hs : src ∈ Ty.ints) (ht : tgt ∈ Ty.floats) (v : Int) (hv : inRange src v)
@@ -74,7 +130,7 @@ theorem int_to_float_exact (src tgt : Ty) (hs : src ∈ Ty.ints) (ht : tgt ∈ T
   have hp := h1 tgt ht
   have hsf : src.isFloat = false := by
     cases src <;> simp [Ty.ints] at hs <;> rfl
-  rcases checkPairF_sound src tgt v hp hsf hv hsmall with ⟨e, he⟩ | ⟨n, hn⟩
+  rcases checkPairF_sound src tgt v hp hsf hv hsmall with ⟨e, he⟩ | hn
   · exact ⟨by simp [he, verdict], by intro o n h; simp [he] at h⟩
   · refine ⟨by simp [hn, verdict], ?_⟩
     intro o n' h
@@ -84,20 +140,30 @@ theorem int_to_float_exact (src tgt : Ty) (hs : src ∈ Ty.ints) (ht : tgt ∈ T
 
 example : precision .f = 24 ∧ precision .d = 53 ∧ precision .e = 64 := by decide
 
-/-- Text -> integer (`mpt_convert_number` and the `mpt_c[u]intN` functions it calls; targets b y n q i u x t):
-    never undefined behaviour; an accepted conversion consumed a prefix of the text that is either blank (then
-    nothing is stored) or a numeral — optional white space, optional sign, C integer literal — of a number in
-    the target's range, and the stored object denotes exactly that number. -/
+/-- Text -> integer (`mpt_convert_number`, the `mpt_c[u]intN` wrapper and the `_mpt_convert_int/_uint` parser it
+    reaches, as described by the regenerated `Generated/ConvText.lean`; targets b y n q i u x t): never undefined
+    behaviour; an accepted conversion consumed a prefix of the text that is either blank (then nothing is stored) or
+    a numeral — optional white space, optional sign, C integer literal — of a number in the target's range, and the
+    stored object denotes exactly that number (never a saturated or wrapped one); the query mode reports the same
+    verdict and the same consumed length.  Proved by deciding a verified checker on the generated parser tables:
+    dropping the ERANGE test, the minus-sign test, a range test or the `if (val)` breaks it. -/
 theorem text_int_exact (tgt : Ty) (ht : tgt ∈ textTargets) (s : List Nat) (d : Bool) :
     verdict (convertNumber tgt s d) ≠ .broken ∧
-    ∀ o n, convertNumber tgt s d = .ok (o, n) → TextOK tgt s d o n :=
-  ⟨convertNumber_notBroken tgt ht s d, fun o n h => convertNumber_ok tgt s d o n h⟩
+    (∀ o n, convertNumber tgt s d = .ok (o, n) → TextOK tgt s d o n) ∧
+    convertNumber tgt s false = dropValue (convertNumber tgt s true) := by
+  have htab : checkTextTable = true := by decide
+  unfold checkTextTable at htab
+  rw [List.all_eq_true] at htab
+  exact convertNumber_sound tgt ht (htab tgt ht) s d
 
-/-- the same for `mpt_convert_string` (skips leading white space itself) -/
+/-- the same for `mpt_convert_string` (skips leading white space itself; blank text is "no value", 0 consumed) -/
 theorem text_string_exact (tgt : Ty) (ht : tgt ∈ textTargets) (s : List Nat) (d : Bool) :
     verdict (convertString tgt s d) ≠ .broken ∧
-    ∀ o n, convertString tgt s d = .ok (o, n) → TextOK tgt s d o n :=
-  ⟨convertString_notBroken tgt ht s d, fun o n h => convertString_ok tgt s d o n h⟩
+    (∀ o n, convertString tgt s d = .ok (o, n) → TextOK tgt s d o n) ∧
+    convertString tgt s false = dropValue (convertString tgt s true) :=
+  ⟨convertString_notBroken tgt s d (fun s' => (text_int_exact tgt ht s' d).1),
+   fun o n h => convertString_ok tgt s d o n (fun s' o' n' h' => (text_int_exact tgt ht s' d).2.1 o' n' h') h,
+   convertString_query tgt s (fun s' => (text_int_exact tgt ht s' false).2.2)⟩
 
 /-- " -129" is refused for int8, " -128x" is read as -128 from its first 5 characters; "-1" is refused for uint64;
     2^63 is refused for int64 -/
@@ -106,17 +172,43 @@ example : convertNumber .b [32, 45, 49, 50, 56, 120] true = .ok (some 128, 5) :=
 example : convertNumber .t [45, 49] true = .err .BadValue := by decide
 example : numeral [32, 45, 49, 50, 56] = some (-128) ∧ denote .b 128 = -128 := by decide
 
-/-- Text: the query mode reports the same verdict and the same consumed length as the conversion. -/
-theorem text_query_same_verdict (tgt : Ty) (s : List Nat) :
-    convertNumber tgt s false = dropValue (convertNumber tgt s true) ∧
-    convertString tgt s false = dropValue (convertString tgt s true) :=
-  ⟨convertNumber_query tgt s, convertString_query tgt s⟩
+/-- Text -> character ('c' target of `mpt_convert_number` and `mpt_convert_string`): never undefined behaviour; an
+    accepted conversion either found only blanks (nothing stored, nothing consumed) or consumed blanks and one
+    printable 7-bit character, which is what is stored; the query mode reports the same verdict and length. -/
+theorem text_char_exact (s : List Nat) (d : Bool) :
+    verdict (convertNumber .c s d) ≠ .broken ∧ verdict (convertString .c s d) ≠ .broken ∧
+    (∀ o n, convertNumber .c s d = .ok (o, n) → CharOK s d o n) ∧
+    (∀ o n, convertString .c s d = .ok (o, n) → CharOK s d o n) ∧
+    convertNumber .c s false = dropValue (convertNumber .c s true) ∧
+    convertString .c s false = dropValue (convertString .c s true) := by
+  have hnb : ∀ s' d', verdict (convertNumber .c s' d') ≠ .broken := by
+    intro s' d'; simp only [convertNumber, if_true]; exact convertChar_notBroken s' d'
+  have hq : ∀ s', convertNumber .c s' false = dropValue (convertNumber .c s' true) := by
+    intro s'; simp only [convertNumber, if_true]; exact convertChar_query s'
+  refine ⟨hnb s d, convertString_notBroken .c s d (fun s' => hnb s' d), ?_, fun o n h => convertStringChar_ok s d o n h,
+    hq s, convertString_query .c s hq⟩
+  intro o n h
+  simp only [convertNumber, if_true] at h
+  exact convertChar_ok s d o n h
 
-/-- Floating point -> floating point narrowing never turns a finite number into an infinity (DESIGN §5.0).
-    Statement only: rounding is outside the proved part; the clause is checked differentially against the real
-    code with the exact rounding of Spec/Float.lean (see the level note). -/
-def float_no_saturation_statement : Prop :=
-  ∀ (src tgt : Ty) (x y : FVal) (n : Nat), src ∈ Ty.floats → tgt ∈ Ty.floats →
-    conv src tgt (.flt x) true = .ok (some (.flt y), n) → x.isFinite = true → y.isFinite = true
+example : convertNumber .c [32, 9, 65, 66] true = .ok (some 65, 3) := by decide
+
+/-- Text -> floating point (`mpt_cfloat`, `mpt_cdouble`, `mpt_cldouble` as described by the regenerated
+    `Generated/ConvText.lean`; `strtof/strtod/strtold` themselves are an oracle `r` that satisfies the libc contract
+    "a numeral whose correctly rounded value is not finite yields an infinity and ERANGE"): an accepted conversion
+    consumed what `strto*` consumed and stores the value it returned, and the numeral did not overflow — a finite
+    numeral is never stored as an infinity, it is refused.  Dropping the `errno` reset or the ERANGE test breaks it. -/
+theorem text_float_no_saturation (p : TextParser)
+    (hp : p ∈ [Generated.Text.mpt_cfloat, Generated.Text.mpt_cdouble, Generated.Text.mpt_cldouble])
+    (r : StrToF) (hr : r.contract) (s : List Nat) (d : Bool) (o : Option FVal) (n : Nat)
+    (h : runFloatParser p r s d = .ok (o, n)) (hn : n ≠ 0) :
+    r.overflow = false ∧ n = r.consumed ∧ (d = true → o = some r.value) := by
+  have hall : ∀ q ∈ [Generated.Text.mpt_cfloat, Generated.Text.mpt_cdouble, Generated.Text.mpt_cldouble],
+      checkFloatParser q = true := by decide +kernel
+  exact runFloatParser_no_overflow p (hall p hp) r hr s d o n h hn
+
+/-- which of them `mpt_convert_number` reaches for f, d, e -/
+example : (Generated.Text.numberDispatch.filter (fun x => x.1 ∈ [102, 100, 101])).map (·.2.1) =
+    ["mpt_cfloat", "mpt_cdouble", "mpt_cldouble"] := by decide
 
 end Mpt.C07
